@@ -65,7 +65,7 @@ def gen_charges(rng, shells):
 
 
 def gen_cases(tier, seed):
-    reps = 3 if tier == "quick" else 180
+    reps = 5 if tier == "quick" else 180
     cases = []
     for rep in range(reps):
         for (la, lb) in itertools.product(range(6), repeat=2):
